@@ -19,8 +19,10 @@ type TypeRef struct {
 	Pkg   string `json:"pkg,omitempty"`   // package (directory) name of a named type
 	Name  string `json:"name,omitempty"`  // type name
 	Slice bool   `json:"slice,omitempty"` // []T
-	Map   bool   `json:"map,omitempty"`   // map[string]T (bodies and results only; never together with Slice or Ptr)
-	Ptr   bool   `json:"ptr,omitempty"`   // *T (outermost)
+	// ElemPtr: with Slice, the elements are pointers ([]*T; results only)
+	ElemPtr bool `json:"elem_ptr,omitempty"`
+	Map     bool `json:"map,omitempty"` // map[string]T (bodies and results only; never together with Slice or Ptr)
+	Ptr     bool `json:"ptr,omitempty"` // *T (outermost)
 }
 
 type Param struct {
@@ -71,6 +73,8 @@ type Controller struct {
 	Desc     string   `json:"desc,omitempty"`
 	Security []Alt    `json:"security,omitempty"`
 	Methods  []Method `json:"methods"`
+	// Grouped: declared inside a "type ( ... )" block that carries a doc comment of its own
+	Grouped bool `json:"grouped,omitempty"`
 }
 
 type Field struct {
@@ -94,11 +98,13 @@ type Struct struct {
 }
 
 type Enum struct {
-	Name   string   `json:"name"`
-	Pkg    string   `json:"pkg"`
-	File   string   `json:"file"`
-	Prim   string   `json:"prim"`
-	Values []string `json:"values"` // Go literal text
+	// AliasConst: one more constant repeats the value of the first (order profile only)
+	AliasConst bool     `json:"alias_const,omitempty"`
+	Name       string   `json:"name"`
+	Pkg        string   `json:"pkg"`
+	File       string   `json:"file"`
+	Prim       string   `json:"prim"`
+	Values     []string `json:"values"` // Go literal text
 	// SplitFile: if set, the second half of the constants is declared in this other file of the package
 	SplitFile string `json:"split_file,omitempty"`
 }
@@ -295,6 +301,9 @@ func (t TypeRef) GoString(fromPkg string) string {
 	}
 	if t.Slice {
 		s += "[]"
+		if t.ElemPtr {
+			s += "*"
+		}
 	}
 	if t.Map {
 		s += "map[string]"
